@@ -49,6 +49,9 @@ def run(ctx, rep):
         rep.ob('field-offset', path + ':no extra fields', not extra, '%s has fields the specification does not: %s' % (path, sorted(extra)), sp=adt['sp'])
         rep.ob('field-offset', path + ':packed', adt.get('repr_packed') and adt.get('repr_c'), '%s is not #[repr(C, packed)]' % path, sp=adt['sp'])
     fadt_ctor(f, rep)
+    # matrix cells: the index rule is shared with C12 (a value assigned to (i, j) must land at the row-major offset)
+    import rules.C12 as C12
+    C12.hmat(f, rep); C12.slit(f, rep)
 
 def check_struct(f, rep, ty, ctor, items, source, self_view, table=False):
     subj = '%s::%s' % (ty, ctor or 'self')
